@@ -16,10 +16,23 @@ How a file gets a second module name / a search dir a second spelling is part of
 a symlink, `./x`, `x/../x`, `x/`), a symlinked directory or file inside a search dir, site-packages
 reached through a symlink. Analyses are counted per REAL file (os.path.realpath).
 
+How an edge is WRITTEN is part of the case as well: absolute statements in 5 forms and RELATIVE ones of level
+1..3 (`from .util import f`, `from .. import util`, `from ... import f_<package>`, `from ..q2.util import f`)
+inside modules and inside `__init__.py` files of regular packages nested 1..4 deep (local and in site-packages),
+with a same-named module `util.py` in every package of the chain and at the top level, so that a level
+mis-counted by one or two silently reaches a different, otherwise unreachable module. Which module a
+relative statement reaches is never computed by the harness: it is `importlib.util.resolve_name` on the
+package of the importing file. The importing file is a followed import, or the target itself
+(`python -m rattr np/q1/q2/__init__.py`).
+
 Implementation side: the real `parse_and_analyse_file()` (+ `generate_results_from_ir`) in-process,
 with `FileAnalyser.analyse` wrapped to count analyses; a sample is re-run through the real CLI.
 Model side: Lean `Imports.bfs` on the module graph whose per-module facts (resolved name, origin,
 blacklist / pip / stdlib verdicts, readability) are computed by rattr's REAL locator functions.
+Edge stage: Lean `Edges.qualified` / `Edges.moduleName` (derive_absolute_module_name with its __init__.py
+adjustment + the right-to-left prefix search, on the statements as data and the module names that exist BY
+CONSTRUCTION) vs the Import symbols of the root context rattr really compiled for every analysed file, and vs
+the edges of the graph the BFS model ran on; Lean `Edges.pyQualified` / `pyTarget` vs importlib.
 Spec side: Lean `Spec.reach` cross-checked with `closure()` below on the same facts (mismatch =
 internal error). Property oracle: `closure()` on facts the harness knows INDEPENDENTLY of rattr (where
 it put each file, `sys.stdlib_module_names`, `re.fullmatch` on names, the import statements it wrote)
@@ -116,6 +129,7 @@ ALIAS_VIAS = ["subdir-on-path:<spelling>",          # a sub-directory of a searc
 SPELLINGS = ["real", "real", "symlink", "symlink", "dot", "dotdot", "slash"]
 RATTR_FORMS = [("rattr", None), ("rattr.config", "Config"), ("rattr.analyser.util", "read")]
 MISSING = "zz_missing0"
+REL_MAX_LEVEL = 3                   # relative imports of level 1..3
 
 
 # ------------------------------------------------------------------ the closure (spec, in Python)
@@ -169,15 +183,63 @@ class Gen:
         if via:
             self.names[name]["via"] = via
 
+    def names_of(self, key):
+        return {n for n, i in self.names.items() if i["file"] == key}
+
+    def primary(self, key):
+        """The name a file was created for (first registered)."""
+        return next(n for n, i in self.names.items() if i["file"] == key)
+
     def package_of(self, key):
         """Dotted package a file lives in (for relative imports), or None."""
         root, rel = key
         parts = rel.split("/")
         return ".".join(parts[:-1]) if len(parts) > 1 else None
 
-    def add_import(self, src_key, dst, form=None, member=None):
+    def regular_chain(self, key):
+        """Every directory between the search root and the file is a regular package (`__init__.py`)."""
+        root, rel = key
+        parts = rel.split("/")[:-1]
+        return bool(parts) and all((root, "/".join(parts[:i]) + "/__init__.py") in self.files
+                                   for i in range(1, len(parts) + 1))
+
+    def rel_candidates(self, src_key, dst):
+        """Every relative statement (level 1..REL_MAX_LEVEL, module part, form) written in file `src_key`
+        that names the module `dst`: through the importing file's own package (level 1), its parent (2),
+        its grand-parent (3); the module part may be empty (`from .. import leaf`), one name or dotted
+        (`from ...q1.util import f`: down again into another branch)."""
+        info = self.names[dst]
+        pkg = self.package_of(src_key)
+        if pkg is None or info["file"] is None or info["kind"] not in ("local", "pip") or info.get("via") \
+                or info["file"][0] != src_key[0] or src_key in self.no_rel or not self.regular_chain(src_key):
+            return []
+        parts, out = pkg.split("."), []
+        for lvl in range(1, min(REL_MAX_LEVEL, len(parts)) + 1):
+            anc = ".".join(parts[: len(parts) - (lvl - 1)])
+            if dst == anc:
+                out.append((lvl, None, "rel_from_anc"))          # from .. import f_<anc>
+            elif dst.startswith(anc + "."):
+                rest = dst[len(anc) + 1:]
+                out.append((lvl, rest, "rel_from_mod"))          # from ..rest import f
+                out.append((lvl, rest.rpartition(".")[0] or None, "rel_from_pkg"))   # from ..<rest's parent> import leaf
+        return out
+
+    def longest_name(self, qualified):
+        """The longest prefix of a dotted name that is a module of this project (by construction)."""
+        parts = qualified.split(".")
+        for k in range(len(parts), 0, -1):
+            n = ".".join(parts[:k])
+            if n in self.names and self.names[n]["kind"] != "missing":
+                return n
+        return None
+
+    def add_import(self, src_key, dst, form=None, member=None, rel=None):
         """Write an import of module `dst` into file `src_key`; record the Import symbol rattr is
-        expected to create: qualified name, declared module, intended target module."""
+        expected to create: qualified name, declared module, intended target module, and the statement
+        as data (`stmt`: level, module part, imported name). `form="rel"`: a relative statement if one
+        can name `dst` (any level); `rel=(level, module part | None, form)`: exactly that one.
+        The module a RELATIVE statement reaches is never computed here: it is what
+        `importlib.util.resolve_name` says for the importing file's package."""
         f = self.files[src_key]
         info = self.names[dst]
         kind = info["kind"]
@@ -194,10 +256,17 @@ class Gen:
             multi, fn, form, forms = list(member), member[0], "from", ["from"]
         if parent and kind in ("local", "pip", "stdlib"):
             forms += ["from_pkg"]
-            if kind != "stdlib" and pkg == parent and info["file"][0] == src_key[0] and src_key not in self.no_rel \
-                    and not info.get("via"):
-                forms += ["rel_from_mod", "rel_from_pkg", "rel_from_mod"]
-        if form is None or form not in forms:
+        cands = self.rel_candidates(src_key, dst) if multi is None else []
+        if rel is not None:
+            assert tuple(rel) in cands, (src_key, dst, rel, cands)
+            form = rel[2]
+        elif cands and (form == "rel" or form in ("rel_from_mod", "rel_from_pkg", "rel_from_anc")
+                        or (form is None and self.rng.random() < 0.45)):
+            # deeper levels are preferred: they are the rarer ones
+            pool = [c for c in cands if form in (None, "rel") or c[2] == form] or cands
+            rel = self.rng.choice(pool + [c for c in pool if c[0] >= 2])
+            form = rel[2]
+        if form is None or form not in forms + (["rel_from_mod", "rel_from_pkg", "rel_from_anc"] if rel else []):
             form = self.rng.choice(forms)
         # alias identifiers are unique across the whole project: equal aliases in two files that
         # import each other make resolve_import recurse for ever (C06 alias / re-export cycle, a C07
@@ -209,6 +278,7 @@ class Gen:
             return i if i not in f["ids"] else None
 
         call = None
+        intended = None if kind == "missing" else dst
         if form == "import":
             ident = fresh(dst)
             if ident is None:
@@ -216,10 +286,12 @@ class Gen:
             else:
                 stmt, qual, decl = f"import {dst}", dst, dst
                 call = f"{dst}.{fn}(x)" if has_fn else None
+                sdata = {"level": 0, "module": dst, "name": None}
         if form == "import_as":
             ident = f"al{k}"
             stmt, qual, decl = f"import {dst} as {ident}", dst, dst
             call = f"{ident}.{fn}(x)" if has_fn else None
+            sdata = {"level": 0, "module": dst, "name": None}
         if form == "from":
             ident = fresh(fn)
             if ident is None:
@@ -227,34 +299,47 @@ class Gen:
             else:
                 stmt, qual, decl = f"from {dst} import {fn}", f"{dst}.{fn}", dst
                 call = f"{fn}(x)" if has_fn else None
+                sdata = {"level": 0, "module": dst, "name": fn}
         if form == "from_as":
             ident = f"g{k}"
             stmt, qual, decl = f"from {dst} import {fn} as {ident}", f"{dst}.{fn}", dst
             call = f"{ident}(x)" if has_fn else None
-        if form in ("from_pkg", "rel_from_pkg"):
+            sdata = {"level": 0, "module": dst, "name": fn}
+        if form == "from_pkg":
             ident = fresh(leaf)
-            mod = parent if form == "from_pkg" else "."
             if ident is None:
                 ident = f"s{k}"
-                stmt = f"from {mod} import {leaf} as {ident}"
+                stmt = f"from {parent} import {leaf} as {ident}"
             else:
-                stmt = f"from {mod} import {leaf}"
+                stmt = f"from {parent} import {leaf}"
             qual, decl = dst, parent
             call = f"{ident}.{fn}(x)" if has_fn else None
-        if form == "rel_from_mod":
-            ident = fresh(fn)
+            sdata = {"level": 0, "module": parent, "name": leaf}
+        if form in ("rel_from_mod", "rel_from_pkg", "rel_from_anc"):
+            import importlib.util
+            lvl, modpart, _ = rel
+            spelled = "." * lvl + (modpart or "")
+            # GROUND TRUTH: CPython's own rule, applied to the package of the importing file
+            resolved = importlib.util.resolve_name(spelled, pkg)
+            name = leaf if form == "rel_from_pkg" else fn
+            ident = fresh(name)
             if ident is None:
-                ident = f"g{k}"
-                stmt = f"from .{leaf} import {fn} as {ident}"
+                ident = f"{'s' if form == 'rel_from_pkg' else 'g'}{k}"
+                stmt = f"from {spelled} import {name} as {ident}"
             else:
-                stmt = f"from .{leaf} import {fn}"
-            qual, decl = f"{dst}.{fn}", dst
-            call = f"{ident}(x)" if has_fn else None
+                stmt = f"from {spelled} import {name}"
+            qual, decl = f"{resolved}.{name}", resolved
+            intended = self.longest_name(qual)
+            assert intended == dst, ("generator: the statement does not name the module it was written for",
+                                     src_key, stmt, resolved, intended, dst)
+            call = (f"{ident}.{fn}(x)" if form == "rel_from_pkg" else f"{ident}(x)") if has_fn else None
+            sdata = {"level": lvl, "module": modpart, "name": name}
         f["ids"].add(ident)
-        syms = [{"qualified": qual, "declared": decl, "intended": None if kind == "missing" else dst, "form": form}]
+        syms = [{"qualified": qual, "declared": decl, "intended": intended, "form": form, "stmt": sdata}]
         if multi and form == "from":
             stmt = f"from {dst} import " + ", ".join(multi)
-            syms = [{"qualified": f"{dst}.{m}", "declared": dst, "intended": dst, "form": "from_multi"} for m in multi]
+            syms = [{"qualified": f"{dst}.{m}", "declared": dst, "intended": dst, "form": "from_multi",
+                     "stmt": {"level": 0, "module": dst, "name": m}} for m in multi]
             f["ids"].update(multi)
         if dst == "__future__" and stmt.startswith("from "):
             # future statements stand before everything else in the file
@@ -267,6 +352,28 @@ class Gen:
             f["symbols"].extend(syms)
         if call and self.rng.random() < 0.85:
             f["calls"].append(call)
+
+    def nested_packages(self, root, top, depth, kind, modules=("util",), always=True):
+        """A chain of regular packages `top`, `top.q1`, ... (`depth` packages), each with the SAME-NAMED
+        modules (`util.py` in every one of them — the usual util.py / helpers.py per package) and the same
+        module name once more at the top level of the search dir: a relative import whose level is
+        mis-counted by one or two silently reaches a different module of the same name."""
+        chain = [top] + [f"q{i}" for i in range(1, depth)]
+        made = []
+        for i in range(1, depth + 1):
+            d = "/".join(chain[:i])
+            n = ".".join(chain[:i])
+            self.add_file(root, f"{d}/__init__.py", n, kind)
+            made.append(n)
+            for m in modules:
+                if always or self.rng.random() < 0.8:
+                    self.add_file(root, f"{d}/{m}.py", f"{n}.{m}", kind)
+                    made.append(f"{n}.{m}")
+        for m in modules:
+            if (always or self.rng.random() < 0.6) and m not in self.names:
+                self.add_file(root, f"{m}.py", m, kind)
+                made.append(m)
+        return made
 
     # -- one real file under two module names / one search dir under two spellings (ALIAS_VIAS)
     def alias_subdir_on_path(self, spell="real", only=None):
@@ -304,8 +411,9 @@ class Gen:
         body = "".join(f"    {c}\n" for c in f["calls"])
         return "\n".join(f["stmts"]) + f"\n\ndef f_{f['tag']}(x):\n{body}    return x.attr_{f['tag']}\n"
 
-    def case(self, level, patterns):
+    def case(self, level, patterns, target_file=None):
         return {
+            **({"target_file": target_file} if target_file else {}),
             "level": level,
             "patterns": patterns,
             "extra_path": self.extra_path,
@@ -381,6 +489,13 @@ def random_case(rng):
     if rng.random() < 0.25:
         # local namespace package (no __init__.py at any level): must stay local
         g.add_file("proj", "lns/inner/nmod.py", "lns.inner.nmod", "local")
+    nested = []
+    if rng.random() < 0.4:
+        # a chain of 1-4 nested regular packages with same-named modules at every level (local, or
+        # inside site-packages); relative imports of level 1..3 are written inside it below
+        nroot, ntop, nkind = ("proj", "np", "local") if rng.random() < 0.8 else ("sp", "nq", "pip")
+        nested = g.nested_packages(nroot, ntop, rng.randint(1, 4), nkind,
+                                   modules=("util", "hlp") if rng.random() < 0.4 else ("util",), always=False)
     members = {"keyword": "iskeyword", "colorsys": "rgb_to_hls", "token": "tok_name", "sys": "argv", "os": "sep",
                "math": "pi"}
     level = rng.choice([0, 1, 1, 2, 2, 3, 3])
@@ -421,13 +536,23 @@ def random_case(rng):
             if dst == src_name or g.names[dst]["file"] == key:
                 continue  # no self-import (under either name)
             g.add_import(key, dst, member=members.get(dst))
+    if nested:
+        # relative imports inside the chain (every level the position of the file allows), and one
+        # absolute import of a module of the chain by the target, so that the chain is reachable
+        for key in [k_ for k_ in g.files if g.names_of(k_) & set(nested)]:
+            src_name = g.primary(key)
+            dsts = [d for d in nested if d != src_name and g.rel_candidates(key, d)]
+            for dst in rng.sample(dsts, min(len(dsts), rng.choice([0, 1, 1, 2]))):
+                g.add_import(key, dst, form="rel")
+        deep = [n for n in nested if "." in n]
+        g.add_import(("proj", "target.py"), rng.choice(deep or nested))
     pool = pattern_pool(g)
     r = rng.random()
     patterns = [] if r < 0.35 else rng.sample(pool, 1 if r < 0.8 else 2)
     if missing and rng.random() < 0.8:
         patterns.append("zz_missing.*")
     c = g.case(level, patterns)
-    c["shape"] = {"two_names": two_names, "missing": missing}
+    c["shape"] = {"two_names": two_names, "missing": missing, "nested": bool(nested)}
     return c
 
 
@@ -573,6 +698,83 @@ def stdlib_universe_cases():
                               "cli": name == "__future__" and form == "from" and not isinstance(member, tuple)
                               and (where == "target" or level == 1)}
                 yield c
+
+
+def relative_cases():
+    """Relative imports of every level 1..3 written in the `__init__.py` of a package nested 1..4 deep and
+    in a module of that package, in every statement shape (`from ..util import f`, `from .. import util`,
+    `from .. import f_<package>`, `from ..q2.util import f`), with a same-named module `util.py` in EVERY
+    package of the chain and at the top level — the importing file reached as a followed import of
+    target.py, or being the target itself (`python -m rattr np/q1/q2/__init__.py`). Only the module
+    `importlib.util.resolve_name` names is reachable; every other `util` is a decoy nothing imports.
+    Variants: the chain inside site-packages (levels 1 and 2), the reachable module excluded by a
+    pattern (then none of them may be analysed)."""
+    def build(root, top, kind, d, importer, lvl, shape, where, level=1, patterns=()):
+        g = Gen(random.Random(0))
+        chain = [top] + [f"q{i}" for i in range(1, d)]
+        pkg = ".".join(chain)
+        if where == "followed-import":
+            g.add_file("proj", "target.py", "target", "local")
+        g.nested_packages(root, top, d, kind)
+        if importer == "init":
+            src_key, src_name = (root, "/".join(chain) + "/__init__.py"), pkg
+        else:
+            src_key, src_name = (root, "/".join(chain) + "/m.py"), pkg + ".m"
+            g.add_file(root, src_key[1], src_name, kind)
+        anc = chain[: d - (lvl - 1)]
+        if shape == "mod":              # from <dots>util import f
+            dst, rel = ".".join(anc + ["util"]), (lvl, "util", "rel_from_mod")
+        elif shape == "pkg":            # from <dots> import util
+            dst, rel = ".".join(anc + ["util"]), (lvl, None, "rel_from_pkg")
+        elif shape == "anc":            # from <dots> import f_<ancestor package>
+            dst, rel = ".".join(anc), (lvl, None, "rel_from_anc")
+        else:                           # "down": from <dots>q<k>.util import f — down again into the chain
+            if len(anc) >= d:
+                return None
+            nxt = chain[len(anc)]
+            dst, rel = ".".join(anc + [nxt, "util"]), (lvl, nxt + ".util", "rel_from_mod")
+        if dst == src_name:
+            return None
+        g.add_import(src_key, dst, rel=rel)
+        ident = g.files[src_key]["stmts"][-1].split()[-1]
+        g.files[src_key]["calls"] = [f"{ident}.f_{tag_of(dst)}(x)" if shape == "pkg" else f"{ident}(x)"]
+        if where == "followed-import":
+            t = ("proj", "target.py")
+            g.add_import(t, src_name, form="from")
+            g.files[t]["calls"] = [f"f_{tag_of(src_name)}(x)"]
+            c = g.case(level, list(patterns))
+        else:
+            c = g.case(level, list(patterns), target_file=f"{src_key[0]}/{src_key[1]}")
+        c["shape"] = {"two_names": False, "missing": False,
+                      "corpus": f"relative:{kind}:depth{d}:{importer}:level{lvl}:{shape}:{where}"
+                                + (":excluded" if patterns else "") + f":f{level}",
+                      "cli": False}
+        c["_reached"] = dst
+        return c
+
+    for d in range(1, 5):
+        for lvl in range(1, min(REL_MAX_LEVEL, d) + 1):
+            for importer in ("init", "module"):
+                for shape in ("mod", "pkg", "anc", "down"):
+                    for where in ("followed-import", "target"):
+                        c = build("proj", "np", "local", d, importer, lvl, shape, where)
+                        if c is None:
+                            continue
+                        # through the real CLI as well: the deeper levels in __init__ files (both ways of
+                        # reaching the file) and one row of module importers
+                        c["shape"]["cli"] = (shape == "mod" and lvl >= 2 and (importer == "init" or d == 3)) \
+                            or (shape == "pkg" and lvl == 2 and d == 3 and where == "target")
+                        yield c
+    for d, lvl in ((3, 2), (4, 3), (4, 2)):
+        for importer in ("init", "module"):
+            # the chain inside site-packages: nothing of it below level 2, the resolved module at level 2
+            for level in (1, 2):
+                c = build("sp", "nq", "pip", d, importer, lvl, "mod", "followed-import", level=level)
+                yield c
+            # the reachable module excluded by name: no `util` at all may be analysed
+            c0 = build("proj", "np", "local", d, importer, lvl, "mod", "followed-import")
+            yield build("proj", "np", "local", d, importer, lvl, "mod", "followed-import",
+                        patterns=[re.escape(c0["_reached"])])
 
 
 def enumerated_cases(nodes):
@@ -785,6 +987,18 @@ def channel_cases():
                                   "decor": n % 8})
 
 
+def tgt_key(case):
+    """The file rattr is asked to analyse (root-relative); normally proj/target.py."""
+    return case.get("target_file", "proj/target.py")
+
+
+def tgt_arg(case):
+    """The same as given on the command line (relative to the working directory proj/)."""
+    k = tgt_key(case)
+    assert k.startswith("proj/")
+    return k[len("proj/"):]
+
+
 # ------------------------------------------------------------------ project on disk
 
 class Project:
@@ -858,8 +1072,9 @@ def make_config(pr: Project):
     case = pr.case
     if case.get("channel", {"level_via": "direct"})["level_via"] == "direct":
         impl.reset_config(_follow_imports_level=case["level"], _excluded_imports=list(case["patterns"]),
-                          target=Path("target.py"))
+                          target=Path(tgt_arg(case)))
         return None
+    assert tgt_key(case) == "proj/target.py"      # the channels deliver the configuration for target.py
     from rattr.cli import parse_arguments
     ConfigMetaclass._instance = None
     Config._instance = None
@@ -887,8 +1102,14 @@ def run_impl(pr: Project):
     events = []
     orig_analyse = F.FileAnalyser.analyse
 
+    from rattr.models.symbol import Import
+    file_syms = []
+
     def counting(self):
         events.append(str(Config().state.current_file))
+        # the Import symbols of the root context this file was compiled to (what the BFS enqueues)
+        file_syms.append([[s.qualified_name, s.module_name] for s in self.context.symbol_table.symbols
+                          if isinstance(s, Import)])
         return orig_analyse(self)
 
     queue0 = []
@@ -932,6 +1153,7 @@ def run_impl(pr: Project):
             # the REAL file each analysis read (os.path.realpath: independent of rattr's spelling)
             obs["events_real"] = [pr.real_rel(e) for e in events]
             obs["queue0"] = queue0
+            obs["file_syms"] = file_syms
             obs["unresolved_msgs"] = sum(1 for e in tap.events[:n_events_bfs]
                                          if e["message"].startswith("unable to resolve import"))
             a = Config().arguments
@@ -961,7 +1183,7 @@ def real_facts(pr: Project):
         return {"target": name, "declBl": bool(is_in_import_blacklist(sym["declared"]))}
 
     modules, order = {}, []
-    target_imps = [imp_fact(s) for s in case["symbols"]["proj/target.py"]]
+    target_imps = [imp_fact(s) for s in case["symbols"][tgt_key(case)]]
     work = [i["target"] for i in target_imps]
     outside = []
     while work:
@@ -1031,7 +1253,7 @@ def oracle_reach(case):
     for n, i in case["names"].items():
         if i["file"] is not None:
             imports_of[n] = [s["intended"] for s in case["symbols"][i["file"]]]
-    tgt = [s["intended"] for s in case["symbols"]["proj/target.py"]]
+    tgt = [s["intended"] for s in case["symbols"][tgt_key(case)]]
     return closure(imports_of, tgt, lambda n: permitted_indep(case, n))
 
 
@@ -1133,7 +1355,7 @@ def judge(case, obs):
     # each once: analyses per REAL file (the target file once more as the target itself). A file is
     # identified by os.path.realpath of what rattr opened, never by rattr's spelling of the path.
     ev = obs.get("events_real", obs["events"])
-    if not ev or ev[-1] != "proj/target.py":
+    if not ev or ev[-1] != tgt_key(case):
         out.append({"signature": "other:target-not-analysed-last", "events": ev})
     imp_ev = ev[:-1]
     for e in sorted({e for e in imp_ev if imp_ev.count(e) > 1}):
@@ -1157,7 +1379,7 @@ def judge(case, obs):
         txt = obs["results_text"]
         files_want = {file_of(case, n) for n in want}
         for rel in case["files"]:
-            if rel == "proj/target.py" or rel in files_want:
+            if rel == tgt_key(case) or rel in files_want:
                 continue
             tag = "attr_" + tag_of_file(case, rel)
             if re.search(re.escape(tag) + r"(?!\w)", txt):
@@ -1193,7 +1415,7 @@ def run_cli(pr: Project):
             cmd += ["-F", p]
     else:
         cmd += list(case["argv"])
-    cmd += ["-o", "ir", "target.py"]
+    cmd += ["-o", "ir", tgt_arg(case)]
     env = dict(os.environ)
     env["PYTHONPATH"] = os.pathsep.join(pr.search_path + ([env["PYTHONPATH"]] if env.get("PYTHONPATH") else []))
     try:
@@ -1226,7 +1448,97 @@ def model_payload(case, obs):
          "modules": f["modules"], "target": f["target"]}
     if case.get("cli_model"):
         p["config"] = case["cli_model"]
+    p["project"] = project_payload(case)
     return p
+
+
+def primary_name(case, rel):
+    """The module name a generated file was created for (first registered)."""
+    return next(n for n, i in case["names"].items() if i["file"] == rel)
+
+
+def project_payload(case):
+    """The project as the edge model (RattrModel/ImportEdges.lean) takes it, all by construction: the
+    dotted names that are modules, and per generated file its name, whether it is an `__init__.py`, and
+    its import statements as data (level, module part, imported name)."""
+    return {"exists": [n for n, i in case["names"].items() if i["kind"] != "missing"],
+            "files": [{"base": primary_name(case, rel), "isInit": rel.endswith("/__init__.py"),
+                       "stmts": [dict(sy["stmt"]) for sy in case["symbols"][rel]]}
+                      for rel in case["files"]]}
+
+
+def package_of_rel(rel):
+    parts = rel.split("/")[1:-1]
+    return ".".join(parts)
+
+
+def check_edges(res, case, obs, mo, shown):
+    """The edge stage: Lean `Edges.qualified` / `Edges.moduleName` (derive_absolute_module_name + the
+    right-to-left prefix search, on the statements the generator wrote) vs the Import symbols of the
+    root context rattr really compiled for every analysed file; the Lean spec (`pyQualified`,
+    `pyTarget`) vs importlib.util.resolve_name and the generator's intention; the theorem's instance."""
+    import importlib.util
+    edges = mo.get("edges")
+    if edges is None:
+        return True
+    rels = list(case["files"])
+    by_rel = dict(zip(rels, edges))
+    for rel in rels:
+        for sy, e in zip(case["symbols"][rel], by_rel[rel]):
+            st = sy["stmt"]
+            if not e["wf"]:
+                res.internal_errors.append({"what": "generated import statement outside the fragment of C12_edge_like_python",
+                                            "file": rel, "stmt": st, "case": shown})
+                return None
+            if not e["same"]:
+                res.internal_errors.append({"what": "theorem C12_edge_like_python contradicted by the driver",
+                                            "file": rel, "stmt": st, "edge": e, "case": shown})
+                return None
+            # the Lean spec against CPython itself (and against what the generator meant)
+            if st["level"] > 0:
+                mod = importlib.util.resolve_name("." * st["level"] + (st["module"] or ""), package_of_rel(rel))
+            else:
+                mod = st["module"]
+            want_q = mod + ("." + st["name"] if st["name"] else "")
+            if e["pyQualified"] != want_q or want_q != sy["qualified"] or e["pyModule"] != sy["intended"]:
+                res.internal_errors.append({"what": "Lean Edges.pyQualified / pyTarget != importlib.util.resolve_name / the generator's intention",
+                                            "file": rel, "stmt": st, "lean": e, "importlib": want_q, "symbol": sy,
+                                            "case": shown})
+                return None
+    res.count("theorem-instance:C12_edge_like_python")
+    # correspondence: per analysed file, the Import symbols rattr built vs the model's
+    ok = True
+    for ev, syms in zip(obs.get("events_real", []), obs.get("file_syms", [])):
+        rel = ev.replace("sp/site-packages/", "sp/", 1)
+        if rel not in by_rel:
+            continue            # a real stdlib file (level 3)
+        model = [[e["qualified"], e["module"]] for e in by_rel[rel]]
+        for sy in case["symbols"][rel]:
+            st = sy["stmt"]
+            if st["level"] > 0:
+                res.count(f"edge:relative:level{st['level']}:{'init' if rel.endswith('/__init__.py') else 'module'}"
+                          f":package-depth{len(rel.split('/')) - 2}:{sy['form']}")
+            else:
+                res.count("edge:absolute:" + sy["form"])
+        if syms != model:
+            ok = False
+            res.disagreements.append({"stage": "edges (import statement -> Import symbol)", "file": rel,
+                                      "case": shown, "impl": syms, "model": model})
+    # the graph the BFS model ran on (per-module facts by the real locator) has the model's edges
+    facts = obs["facts"]
+    real_of = {os.path.realpath(os.path.join(case["_root"], "sp/site-packages" + r[2:] if r.startswith("sp/") else r)): r
+               for r in rels}
+    rows = [(tgt_key(case), facts["target"])] + \
+           [(real_of.get(m.get("real")), m["imports"]) for m in facts["modules"]]
+    for rel, imps in rows:
+        if rel is None:
+            continue
+        model = [e["module"] for e in by_rel[rel]]
+        if [i["target"] for i in imps] != model:
+            ok = False
+            res.disagreements.append({"stage": "edges (model's targets vs the real locator on the expected names)",
+                                      "file": rel, "case": shown, "impl": [i["target"] for i in imps], "model": model})
+    return ok
 
 
 def graph_shape(facts):
@@ -1257,7 +1569,7 @@ def graph_shape(facts):
     return cyc, any(v >= 2 for v in indeg.values())
 
 
-CASE_KEYS = ("level", "patterns", "extra_path", "links", "sp_spell", "files", "symbols", "names", "channel", "argv",
+CASE_KEYS = ("target_file", "level", "patterns", "extra_path", "links", "sp_spell", "files", "symbols", "names", "channel", "argv",
              "aux_files", "cli_model", "toml_selected")
 
 
@@ -1293,13 +1605,15 @@ def evaluate(res, case, obs, mo, cli=None):
         res.count("skipped:stdlib-module-with-imports")
         return
     # the generator's expectation of the target's Import symbols must be what rattr built
-    exp_q = [s["qualified"] for s in case["symbols"]["proj/target.py"]]
+    exp_q = [s["qualified"] for s in case["symbols"][tgt_key(case)]]
     if lvl > 0 and obs["outcome"] in ("ok",) and obs["queue0"] != exp_q:
         res.skipped_outside_fragment += 1
         res.count("skipped:import-symbols-differ-from-generator-expectation")
         return
     if "__error__" in mo:
         res.internal_errors.append({"what": "driver error", "detail": mo, "case": shown})
+        return
+    if check_edges(res, case, obs, mo, shown) is None:
         return
     cyc, dia = graph_shape(facts)
     res.count(f"graph:modules={min(len(facts['modules']), 9)}")
@@ -1440,6 +1754,18 @@ def evaluate(res, case, obs, mo, cli=None):
             res.violations.append({"signature": "other:import-stage-" + obs["outcome"], "case": shown,
                                    "detail": msg})
         return
+    if obs["outcome"] == "fatal":
+        # rattr stopped before analysing anything. By construction that is its answer to an import of a
+        # module that does not exist (kind `missing`); a project in which every imported module exists
+        # must be analysed ("every permitted module reachable ... is analysed")
+        if any(i["kind"] == "missing" for i in case["names"].values()):
+            res.count("verdict:fatal-with-unlocatable-module-in-project")
+        else:
+            res.count("verdict:other")
+            res.violations.append({"signature": "other:fatal-although-every-imported-module-exists", "case": shown,
+                                   "detail": {"spec_reach": sorted(oracle_reach(case))},
+                                   "impl": {"outcome": "fatal"}})
+        return
     for m in facts["modules"]:
         mis = misclassification(case, obs, m["name"])
         if mis:
@@ -1478,10 +1804,17 @@ def run(tier, seed, build):
                 "source modules and packages, dotted names (os.path, collections.abc, importlib.metadata, ...), "
                 "imported by the target and by followed local / pip modules, at every level (level 3 only where nothing "
                 "can be followed behind the module) and in the channel matrix; ground truth: sys.stdlib_module_names. "
+                "Relative imports: every level 1..3 x __init__.py / module of a package nested 1..4 deep x 4 statement "
+                "shapes x importing file followed / being the target itself, with a same-named module in every package "
+                "of the chain and at the top level (ground truth: importlib.util.resolve_name on the importing file's "
+                "package), the chain also inside site-packages and with the reached module excluded; 40 % of the random "
+                "projects contain such a chain (1-4 packages, local or pip) with relative imports of every level its "
+                "files allow. Per analysed file the Import symbols rattr built are compared with the Lean edge model. "
                 "non-trivial = distinct case whose target imports at least one locatable module")
     rng = random.Random(seed)
     n_random, n_cli = (400, 16) if tier == "quick" else (800, 30)
-    cases = list(corpus_cases()) + list(alias_cases()) + list(channel_cases()) + list(stdlib_universe_cases())
+    cases = list(corpus_cases()) + list(alias_cases()) + list(channel_cases()) + list(stdlib_universe_cases()) \
+        + list(relative_cases())
     N_CORPUS = len(cases)
     if tier == "quick":
         cases += list(enumerated_cases(["target", "lm0", "pq1"]))
@@ -1542,7 +1875,7 @@ def run(tier, seed, build):
         res.evaluations += 1
         if any(x["target"] for x in obs["facts"]["target"]):
             res.nontrivial.add(common.digest({k: case.get(k) for k in ("level", "patterns", "files", "extra_path", "links",
-                                                                       "sp_spell", "argv", "aux_files")}))
+                                                                       "sp_spell", "argv", "aux_files", "target_file")}))
         res.sample({"level": case["level"], "patterns": case["patterns"], "files": case["files"],
                     "impl_keys": obs.get("keys"), "impl_outcome": obs["outcome"]}, cap=4)
         evaluate(res, case, obs, mo, cli_out.get(i))
@@ -1557,6 +1890,9 @@ def run(tier, seed, build):
         "argparse's tokeniser (--follow-imports=N, -fN) is outside the Lean CLI model: those channels are judged by the oracle only",
         "[interp] the target file is analysed once as the target and at most once more as an import when an import cycle leads back to it",
         "level-3 runs that reach a built-in / frozen / extension stdlib module crash in read() (C07-K8); counted as outside the fragment",
+        "ground truth for the module a relative import statement reaches: importlib.util.resolve_name(dots + module part, package of the importing file), then the longest prefix of <that>.<imported name> that is a module of the generated project; the Lean spec Edges.pyQualified / pyTarget is compared with it on every statement of every case",
+        "[interp] a run that ends in rattr's `fatal` although every module imported anywhere in the project exists is a violation ('every permitted module reachable ... is analysed'): signature other:fatal-although-every-imported-module-exists; with an unlocatable module in the project a fatal is rattr's documented answer and is not judged",
+        "the edge model takes the importing file's module name (derive_module_name_from_path) by construction — the name the file was generated for; C13 covers the path -> name round trip. Relative imports are not written in files reachable under a second PACKAGE name (symlinked package directory)",
     ]
     return res
 
@@ -1566,7 +1902,7 @@ def replay(path):
     j = json.load(open(path))
     case = j["case"]
     case.setdefault("shape", {})
-    print(json.dumps({k: case.get(k) for k in ("level", "patterns", "extra_path", "links", "sp_spell", "channel", "argv")}))
+    print(json.dumps({k: case.get(k) for k in ("target_file", "level", "patterns", "extra_path", "links", "sp_spell", "channel", "argv")}))
     for rel, src in list(case["files"].items()) + list(case.get("aux_files", {}).items()):
         print(f"--- {rel}\n{src}")
     base = os.path.realpath(tempfile.mkdtemp(prefix="c12r_"))
@@ -1583,6 +1919,11 @@ def replay(path):
     print("implementation (in-process):", json.dumps({k: obs.get(k) for k in ("outcome", "keys", "events", "events_real", "results", "pops", "unique", "impl_level", "impl_patterns")}))
     print("model (configuration stage):", json.dumps(mo.get("config")) if "__error__" not in mo else None)
     print("implementation (CLI):", json.dumps(cli))
+    if "__error__" not in mo and mo.get("edges") is not None:
+        print("implementation (Import symbols per analysed file):", json.dumps(list(zip(obs.get("events_real", []), obs.get("file_syms", [])))))
+        print("model (edges: qualified name, module, Python's module per statement):",
+              json.dumps({rel: [[e["qualified"], e["module"], e["pyModule"]] for e in es]
+                          for rel, es in zip(case["files"], mo["edges"]) if es}))
     print("model:", json.dumps({k: mo.get(k) for k in ("outcome", "analysed", "skipped", "pops", "hyps")} if "__error__" not in mo else mo))
     print("spec (independent oracle) reach:", sorted(oracle_reach(case)))
     print("spec (Lean, real facts) reach:", mo.get("specReach"))
